@@ -213,6 +213,19 @@ def run_property(prop_id, tier, seed, jobs=None, only=None, verbose=False):
     order = sorted(range(len(shards)), key=lambda i: -shards[i].budget)
     with ctx.Pool(min(jobs, max(1, len(shards))), maxtasksperchild=8) as pool:
         results = pool.map(_run_shard, order, chunksize=1)
+    # a path can exceed its wall-clock allowance merely because all cores are busy: shards
+    # that stopped on a timeout get one more, quieter, attempt (4 workers) before they are
+    # reported as inconclusive
+    again = [i for i, r in zip(order, results)
+             if r['status'] == 'inconclusive' and 'imeout' in str(r.get('reason'))]
+    if again:
+        with ctx.Pool(min(4, len(again)), maxtasksperchild=4) as pool:
+            second = pool.map(_run_shard, again, chunksize=1)
+        pos = dict((i, k) for k, i in enumerate(order))
+        for i, r in zip(again, second):
+            if r['status'] != 'inconclusive':
+                r['retried'] = True
+                results[pos[i]] = r
     results.sort(key=lambda r: r['name'])
     known = load_known()
     violations, known_hits, harness_errors, inconclusive = [], [], [], []
